@@ -426,7 +426,9 @@ var msgNames = []string{"", "AreYouThere", "OnLineData", "ERN", "名前", "a.b",
 	// letters whose UTF-8 encoding contains the bytes 0x85 or 0xA0 (white space as Latin-1 runes)
 	"Voilà", "Ångström", "状態", "выход",
 	// names that end in the character that ends a message
-	"Rev1.", "etc.", "x.", "Abort.."}
+	"Rev1.", "etc.", "x.", "Abort..",
+	// names that hold the characters that open and close an item
+	"Temp<100", "a<->b", "x<y>", "Alarm<", ">", "p>q", "<L>"}
 
 func genMsgDesc(r *rand.Rand, item *Node, pbad float64) *MsgDesc {
 	m := &MsgDesc{Item: item}
